@@ -1,10 +1,14 @@
 #!/bin/sh
 # Regenerates _CoqProject (all .v files of the development) and the Makefile.
 cd "$(dirname "$0")" || exit 1
+(
+flock 9
+tmp=_CoqProject.new.$$
 {
   echo "-Q . TFL"
   echo "-arg -w -arg -deprecated-hint-without-locality,-deprecated-instance-without-locality,-notation-overridden"
   find Base Model Proofs Props Harness Gen -name '*.v' | LC_ALL=C sort
-} > _CoqProject.new
-if ! cmp -s _CoqProject.new _CoqProject; then mv _CoqProject.new _CoqProject; coq_makefile -f _CoqProject -o Makefile >/dev/null; else rm _CoqProject.new; fi
+} > $tmp
+if ! cmp -s $tmp _CoqProject; then mv $tmp _CoqProject; coq_makefile -f _CoqProject -o Makefile >/dev/null; else rm $tmp; fi
 [ -f Makefile ] || coq_makefile -f _CoqProject -o Makefile >/dev/null
+) 9>.configure.lock
